@@ -827,7 +827,7 @@ func enumAddresses(tier string) int {
 
 func TestStrings(t *testing.T) {
 	pbt.Run(t, pbt.Sub[Str]{
-		Name: "strings", Quick: 1000000, Thorough: 12000000,
+		Name: "strings", Quick: 1000000, Thorough: 8000000,
 		EnumDesc: fmt.Sprintf("complete neighbourhood of %d (quick) / %d (thorough) derived addresses (hashes with 0..3 leading zero bytes, both networks): every single-character substitution by the 57 other alphabet characters and by 5 non-alphabet characters, every deletion, every adjacent transposition, every insertion of every alphabet character at every position, all 256 version bytes with recomputed and with kept checksum, payload lengths 0..40, runs of '1', the 40 smallest longer numerals congruent to the payload modulo 2^200", enumAddresses("quick"), enumAddresses("thorough")),
 		Enum: func(tier string, yield func(Str)) {
 			n := enumAddresses(tier)
